@@ -1,6 +1,7 @@
 import Proofs.Ledger.NodesExamples
 import Proofs.Ledger.NodesUnstake
 import Proofs.Ledger.NodesWaiting
+import Proofs.Ledger.NodesLog
 /-!
 # C24 — Unstaking returns the stake exactly once, and only when due (node part)
 
@@ -98,6 +99,23 @@ example :
     let s1 := (endBlock (step Ex.s0 (.beginUnstake Ex.A Ex.A)) 4 2000).1
     let s2 := (endBlock s1 5 2100).1
     balOf s1 Ex.O = 0 ∧ balOf s2 Ex.O = 20000000 ∧ s2.pool = s1.pool - 20000000 ∧ aget s2.vals Ex.A = none := by decide
+
+/-- Trace level: over every history no payout ever fails — the "even if error continue with the unstake" path
+of `FinishUnstakingValidator` (record deleted, nothing paid) is unreachable: every `payout` event of the ghost
+log carries `ok = true`. -/
+theorem payouts_never_fail (s : State) (hi : Inv s) (ops : List Op) (hops : ∀ op ∈ ops, op.isPoolSend = false)
+    (hclean : ∀ e ∈ s.log, e.failed = false) (a out : Addr) (amt : Int) (ok : Bool)
+    (he : Event.payout a out amt ok ∈ (run s ops).log) : ok = true := by
+  obtain ⟨l, hl, hc⟩ := ext_run hi ops hops
+  rw [hl] at he
+  have : (Event.payout a out amt ok).failed = false := by
+    rcases List.mem_append.mp he with h | h
+    · exact hclean _ h
+    · exact hc _ h
+  simpa [Event.failed] using this
+
+example : ((endBlock (endBlock (step Ex.s0 (.beginUnstake Ex.A Ex.A)) 4 2000).1 5 2100).1.log.filter fun e =>
+    match e with | .payout .. => true | _ => false) = [.payout Ex.A Ex.O 20000000 true] := by decide
 
 /-- A record disappears in an end-block only when it is due at that block's time: it was unstaking with
 completion time `≤ t`, or it was released in this very end-block (session end, in the waiting set) — in which
